@@ -24,6 +24,8 @@ import I3.Model.BabyJub
 import I3.Model.EdDSA
 import I3.Model.Codec
 import I3.Model.Limbs
+import I3.Model.Instances
+import I3.Model.BlakeStream
 
 open I3
 
@@ -65,40 +67,7 @@ def showEdErr : Model.EdDSA.Err → String
   | .hexBadChar => "ERR:hexBadChar" | .hexOddLen => "ERR:hexOddLen" | .hexBadSize => "ERR:hexBadSize"
   | .scanBadType => "ERR:scanBadType" | .scanBadLen => "ERR:scanBadLen"
 
--- ---------- constants wired from Gen ----------
-def limbsVal (l : List Nat) : Nat := l.foldr (fun x acc => x + W * acc) 0
-
-def ffCfg : Model.FF.Cfg :=
-  { m := Gen.ff_modulus, limbs := Gen.ff_qElement.length, sqrtExp := Gen.ff_sqrtExp, legExp := Gen.ff_legendreExp,
-    gMont := limbsVal Gen.ff_sqrtG, r := Gen.ff_sqrtR, lexHalf := limbsVal Gen.ff_lexLimbs }
-def ffgCfg : Model.FF.Cfg :=
-  { m := Gen.ffg_modulus, limbs := Gen.ffg_qElement.length, sqrtExp := Gen.ffg_sqrtExp, legExp := Gen.ffg_legendreExp,
-    gMont := limbsVal Gen.ffg_sqrtG, r := Gen.ffg_sqrtR, lexHalf := limbsVal Gen.ffg_lexLimbs }
-
-def bjConsts : Model.BabyJub.Consts :=
-  { q := Gen.constants_q, a := Gen.babyjub_A, d := Gen.babyjub_D, order := Gen.babyjub_Order,
-    subOrder := Gen.babyjub_Order >>> Gen.babyjub_SubOrderShift, b8 := (Gen.babyjub_B8x, Gen.babyjub_B8y) }
-
-def pTables (t : Nat) : Option Model.Poseidon.Tables :=
-  (Gen.poseidonTables t).map fun x => { C := x.C, S := x.S, M := x.M, P := x.P }
-
-def poseidonEx (inp : List Int) (st : Int) (n : Int) : Except Model.Poseidon.Err (List Nat) :=
-  Model.Poseidon.hashWithStateEx Gen.constants_q Gen.poseidon_sboxExp pTables Gen.poseidon_NROUNDSP inp st n
-
-def mimcSeed : Bytes := Gen.mimc7_SEED.toUTF8.toList
-def mimcCts : List Nat := Model.Mimc7.getConstants mimcSeed Gen.mimc7_nRounds
-
-def goldenTab : Model.Poseidon.Tables :=
-  Model.Golden.buildTables Gen.golden_mLen Gen.golden_c Gen.golden_s Gen.golden_p Gen.golden_mcirc Gen.golden_mdiag
-
-def hPoseidon (l : List Int) : Option Nat :=
-  match poseidonEx l 0 1 with | .ok [h] => some h | _ => none
-def hMimc7 (l : List Int) : Option Nat :=
-  match Model.Mimc7.hash mimcCts l none with | .ok h => some h.toNat | _ => none
-def hashBy (name : String) : Option (List Int → Option Nat) :=
-  if name = "poseidon" then some hPoseidon else if name = "mimc7" then some hMimc7 else none
-
-def sqrtQ (x : Nat) : Option Nat := sqrtMod x Gen.constants_q
+open I3.Inst
 
 def checksum (m : Nat) (l : List Nat) : Nat :=
   (l.zipIdx.foldl (fun acc (v, i) => (acc + (i + 1) * v) % m) 0)
@@ -191,7 +160,6 @@ def parseSrc? (kind payload : String) : Option Model.Codec.Src :=
 
 def showSig (s : Model.EdDSA.Sig) : String := s!"{showPt s.r8} {s.s}"
 
-def blake (b : Bytes) : Bytes := Blake.blake512 b
 
 def modelOp (op : String) (args : List String) : Option String := do
   let k := bjConsts
@@ -233,7 +201,7 @@ def modelOp (op : String) (args : List String) : Option String := do
     pure s!"{checksum gp goldenTab.C} {checksum gp goldenTab.S} {checksum gp goldenTab.M.flatten} {checksum gp goldenTab.P.flatten} {goldenTab.C.length} {goldenTab.S.length}"
   -- hashes
   | "keccak.hash", slices => pure (showBytes (Keccak.hashSlices (← slices.mapM parseBytes?)))
-  | "blake.hash", [b] => pure (showBytes (blake (← parseBytes? b)))
+  | "blake.hash", [b] => pure (showBytes (Model.BlakeStream.blake512Stream (← parseBytes? b)))
   -- babyjub
   | "bj.add", [x1, y1, x2, y2] =>
     let p := ((← parseInt? x1), (← parseInt? y1)); let r := ((← parseInt? x2), (← parseInt? y2))
@@ -344,6 +312,8 @@ def modelOp (op : String) (args : List String) : Option String := do
 def specOp (op : String) (args : List String) : Option String := do
   match op, args with
   | "poseidon.hashex", [inp, st, n] => pure (specPoseidon (← parseIntList? inp) (← parseInt? st) (← parseInt? n))
+  | "blake.hash", [b] => pure (showBytes (Blake.blake512 (← parseBytes? b)))
+  | "keccak.hash", slices => pure (showBytes (Keccak.keccak256 (← slices.mapM parseBytes?).flatten))
   | "mimc7.mimc7hashgeneric", [x, kk, n] => pure (toString (specMimc7 (imod (← parseInt? x) q) (imod (← parseInt? kk) q) (← parseNat? n)))
   | "mimc7.mimc7hash", [x, kk] => pure (toString (specMimc7 (imod (← parseInt? x) q) (imod (← parseInt? kk) q) 91))
   | "bj.add", [x1, y1, x2, y2] =>
